@@ -336,26 +336,27 @@ unsigned MemoryPersister::get(const unsigned from, const unsigned to, Session& s
 		return 0;
 	}
 
-	Store::const_iterator itr(_store.find(startSeqNum));
-	if (itr != _store.end())
+	// one record at a time under the lock: the callback sends, and sending threads store meanwhile
+	for (unsigned next(startSeqNum);;)
 	{
-		do
+		unsigned seqnum;
+		f8String record;
 		{
-			if (!itr->first || itr->first > finish)
+			f8_scoped_lock guard(_mutex);
+			Store::const_iterator itr(_store.lower_bound(next));
+			if (itr == _store.end() || !itr->first || itr->first > finish)
 				break;
-			Session::SequencePair result(itr->first, itr->second);
-			++recs_sent;
-			if (!(session.*callback)(result, rctx))
-				break;
+			seqnum = itr->first;
+			record = itr->second;
 		}
-		while(++itr != _store.end());
-
-		Session::SequencePair result(0, "");
-		rctx._no_more_records = true;
-		(session.*callback)(result, rctx);
+		++recs_sent;
+		if (!(session.*callback)(Session::SequencePair(seqnum, record), rctx))
+			break;
+		next = seqnum + 1;
 	}
-	else
-		glout_error << "record not found (" << startSeqNum << ')';
+
+	rctx._no_more_records = true;
+	(session.*callback)(Session::SequencePair(0, ""), rctx);
 
 	return recs_sent;
 }
@@ -363,6 +364,7 @@ unsigned MemoryPersister::get(const unsigned from, const unsigned to, Session& s
 //-------------------------------------------------------------------------------------------------
 bool MemoryPersister::put(const unsigned sender_seqnum, const unsigned target_seqnum)
 {
+	f8_scoped_lock guard(_mutex);
 	const unsigned arr[2] { sender_seqnum, target_seqnum };
 	_store.erase(0); // replace any previous control record
 	return _store.insert({0, f8String(reinterpret_cast<const char *>(arr), sizeof(arr))}).second;
@@ -371,12 +373,14 @@ bool MemoryPersister::put(const unsigned sender_seqnum, const unsigned target_se
 //-------------------------------------------------------------------------------------------------
 bool MemoryPersister::put(const unsigned seqnum, const f8String& what)
 {
+	f8_scoped_lock guard(_mutex);
 	return !seqnum ? false : _store.insert({seqnum, what}).second;
 }
 
 //-------------------------------------------------------------------------------------------------
 bool MemoryPersister::get(unsigned& sender_seqnum, unsigned& target_seqnum) const
 {
+	f8_scoped_lock guard(_mutex);
 	Store::const_iterator itr(_store.find(0));
 	if (itr == _store.end())
 		return false;
@@ -392,6 +396,7 @@ bool MemoryPersister::get(unsigned& sender_seqnum, unsigned& target_seqnum) cons
 //-------------------------------------------------------------------------------------------------
 bool MemoryPersister::get(const unsigned seqnum, f8String& to) const
 {
+	f8_scoped_lock guard(_mutex);
 	if (!seqnum)
 		return false;
 	Store::const_iterator itr(_store.find(seqnum));
@@ -404,6 +409,7 @@ bool MemoryPersister::get(const unsigned seqnum, f8String& to) const
 //---------------------------------------------------------------------------------------------------
 unsigned MemoryPersister::find_nearest_highest_seqnum (const unsigned requested, const unsigned last) const
 {
+	f8_scoped_lock guard(_mutex);
 	if (last)
 	{
 		for (unsigned startseqnum(requested ? requested : 1); startseqnum <= last; ++startseqnum) // 0 is the control record
@@ -420,5 +426,6 @@ unsigned MemoryPersister::find_nearest_highest_seqnum (const unsigned requested,
 //---------------------------------------------------------------------------------------------------
 unsigned MemoryPersister::get_last_seqnum(unsigned& to) const
 {
+	f8_scoped_lock guard(_mutex);
 	return to = (_store.empty() ? 0 : _store.rbegin()->first);
 }
